@@ -456,6 +456,7 @@ inline void promise_history(const vf::opts &o, vf::report &R, uint64_t histories
                 int code = 700 + step; bool threw = false, ok = false;
                 try { ok = (bool)(*slot[a])(vf::bomb{code}); } catch (const vf::test_exc &e) { threw = true; if (e.code != code) err = "foreign exception escaped the call"; }
                 bool still_armed = (bool)*slot[a];
+                if (owner[a] >= 0 && !still_armed && !threw && !ok) err = "the call consumed the promise and resolved the future (with the constructor's exception) but reported failure: a resolution took effect and no call reports success";
                 if (owner[a] < 0) { if (ok) err = "call reported success on an empty promise"; }
                 else if (still_armed) { if (ok) err = "call reported success but the promise is still armed"; } // failed cleanly: nothing happened
                 else { // the call consumed the promise: then a resolution must have taken effect (the constructor's exception, or no-value)
